@@ -18,8 +18,11 @@ int main()
    s.add(e);
    s.memRemax(1);                           // memMax() == memSize() == 1, one unused nonzero
    Nonzero<double>* before = s[0].mem();
-   s.add2(s[0], 5, 1.0);                    // xtend(1 -> 1 ok) ... use two nonzeros to force the growth
-   s.add2(s[0], 6, 2.0);                    // ASan: heap-use-after-free in SVectorBase::add
-   printf("mem before %p after %p, vector: size=%d [5]=%g [6]=%g\n", (void*)before, (void*)s[0].mem(), s[0].size(), s[0][5], s[0][6]);
+   int idx[2] = {5, 6}; double val[2] = {1.0, 2.0};
+   (void)before;
+   s.xtend(s[0], 2);                        // ensureMem packs (max 1 -> 0), insert(…, 2) reallocates without fix-up
+   printf("vector max()=%d; writing two nonzeros through it ...\n", s[0].max());
+   s[0].add(2, idx, val);                   // ASan: heap-use-after-free (the same happens inside add2(svec, 2, idx, val))
+   printf("size=%d [5]=%g [6]=%g\n", s[0].size(), s[0][5], s[0][6]);
    return 0;
 }
